@@ -293,8 +293,9 @@ func knownNonNilPath(path string, b *ssa.BasicBlock) bool {
 	if b == nil {
 		return false
 	}
+	path = trimAddr(path)
 	for _, f := range factsAt(b) {
-		if x, isNil, ok := nilTest(f); ok && !isNil && accessPath(x) == path {
+		if x, isNil, ok := nilTest(f); ok && !isNil && trimAddr(f.pathOf(x)) == path {
 			return true
 		}
 	}
